@@ -1,9 +1,43 @@
-(* C07 oracle: "ks <hex>..." -> sorted keys; "kj <hex>..." -> joined; "fe <hex>..." -> callback order *)
+(* C07 oracle: "ks <hex>..." -> sorted keys; "kj <hex>..." -> joined; "fe <hex>..." -> callback order
+   pe <hexline>                         -> parse_entry_line: ignored | invalid | entry <5 hex fields>
+   le <k> <k hex lines> <hex log lines> -> load_entries: <invalid count> <entries in map order: n:r:t:o:d;...> ("-" if none)
+   au <z>                               -> hex of ansic_utc z
+   cd <z days>                          -> y m d weekday days_from_civil
+   lm <k> <k hex entries lines> <hex name> <none|z> -> is_locally_modified in two environments, and the local-time variant in both: 4 bits *)
 let show l = if l = [] then "." else String.concat " " (List.map hex_of_bytes l)
+let rec take k l = if k = 0 then [] else match l with [] -> [] | x :: r -> x :: take (k - 1) r
+let rec drop k l = if k = 0 then l else match l with [] -> [] | _ :: r -> drop (k - 1) r
+let show_entry (e : cvs_entry) =
+  String.concat ":" (List.map hex_of_bytes [e.ce_name; e.ce_revision; e.ce_timestamp; e.ce_options; e.ce_tagdate])
+let bit b = if b then "1" else "0"
 let handle (args : string list) : string =
   match args with
   | "ks" :: ks -> show (keys_sorted_of (List.map bytes_of_hex ks))
   | "kj" :: ks -> hex_of_bytes (keys_joined_of (List.map bytes_of_hex ks))
   | "fe" :: ks -> show (for_each_of (List.map bytes_of_hex ks))
+  | ["pe"; l] ->
+    (match parse_entry_line (bytes_of_hex l) with
+     | PrIgnored -> "ignored" | PrInvalid -> "invalid" | PrEntry e -> "entry " ^ show_entry e)
+  | "le" :: k :: rest ->
+    let k = int_of_string k in
+    let ls = List.map bytes_of_hex rest in
+    let (es, inv) = load_entries (take k ls) (drop k ls) in
+    string_of_int (int_of_n inv) ^ " " ^ (if es = [] then "-" else String.concat ";" (List.map (fun (_, e) -> show_entry e) es))
+  | ["au"; z] -> hex_of_bytes (ansic_utc (z_of_int (int_of_string z)))
+  | ["cd"; z] ->
+    let d = z_of_int (int_of_string z) in
+    let ((y, m), dd) = civil_from_days d in
+    String.concat " " [string_of_z y; string_of_z m; string_of_z dd; string_of_z (weekday_of_days d); string_of_z (days_from_civil ((y, m), dd))]
+  | "lm" :: k :: rest ->
+    let k = int_of_string k in
+    let ls = List.map bytes_of_hex (take k rest) in
+    (match drop k rest with
+     | [name; st] ->
+       let (es, _) = load_entries ls [] in
+       let st = if st = "none" then None else Some (z_of_int (int_of_string st)) in
+       let name = bytes_of_hex name in
+       bit (is_locally_modified c07_env_utc es name st) ^ bit (is_locally_modified c07_env_other es name st)
+       ^ bit (is_locally_modified_local c07_env_utc es name st) ^ bit (is_locally_modified_local c07_env_other es name st)
+     | _ -> "ERR:bad lm request")
   | _ -> "ERR:bad request"
 let () = serve handle
